@@ -717,6 +717,7 @@ def run(ck, fb, tier):
         if cfg == "A" and tier != "thorough":
             from . import boundsrules as BR
             BR.check_function(K.RuleProxy(ck, {}, default="C01-W"), prog, "C01-W", "SCPI_ParamCopyText")
+            BR.check_function(K.RuleProxy(ck, {}, default="C01-W"), prog, "C01-W", "SCPI_ResultArbitraryBlockHeader")
         if cfg == "A" and tier == "thorough":
             from . import boundsrules as BR
             for name in ("SCPI_NumberToStr", "SCPI_FloatToStr", "SCPI_DoubleToStr", "SCPI_ParamCopyText",
